@@ -262,9 +262,14 @@ def check(ctx):
         okr = bool(c.args) and text(c.args[0]) == text(env["_A"]) and bool(star)
         swapped = False
         if okr and isinstance(star[0].value, ast.Name) and star[0].value.id != BY:
-            for d in defs_reaching(fj, star[0].value.id, c):
-                if d.value is not None and ("reversed(" in norm(d.value) or "[::-1]" in norm(d.value)) and BY in {x.id for x in ast.walk(d.value) if isinstance(x, ast.Name)}:
-                    swapped = True
+            from ..forms import contributions
+            cs = contributions(fj, star[0].value.id, c)
+            srcs = {norm(x["iter"]) for x in cs if x["iter"] is not None}
+            vals = [norm(x["value"]) for x in cs if x["value"] is not None]
+            # every element comes from iterating by; tuple elements are reversed, plain names kept
+            if cs and srcs == {BY} and any("reversed(" in v or "[::-1]" in v for v in vals) \
+                    and all(("reversed(" in v or "[::-1]" in v) or v == norm(x["target"]) or " if " in v for v, x in zip(vals, [y for y in cs if y["value"] is not None])):
+                swapped = True
         ctx.ob("SIB-6", fj, text(c), c, okr and swapped,
                "reverse join receives the by-tuples with left/right swapped" if (okr and swapped) else
                f"reverse join {text(c)} swaps the operands but reuses the by-tuples unswapped: renamed keys are looked up on the wrong side",
